@@ -20,10 +20,19 @@ open Diffx Diffx.Lexer
 def SubsLossless (subs : Subs) : Prop :=
   (∀ s, concatVals (subs.json s) = s) ∧ (∀ s, concatVals (subs.diff s) = s)
 
-/-- token positions are contiguous from `start` -/
+/-- token positions are contiguous from `start` (the recursive definition lives in
+Lemmas/Lexer.lean because the lemmas are stated with it; its two equations are
+restated here):
+```
 def Contiguous : Nat → List Tok → Prop
   | _, [] => True
   | p, t :: r => t.pos = p ∧ Contiguous (p + t.val.length) r
+``` -/
+abbrev Contiguous : Nat → List Tok → Prop := Lexer.Contiguous
+
+example (p : Nat) : Contiguous p [] ↔ True := Iff.rfl
+example (p : Nat) (t : Tok) (r : List Tok) :
+    Contiguous p (t :: r) ↔ t.pos = p ∧ Contiguous (p + t.val.length) r := Iff.rfl
 
 def SubsContiguous (subs : Subs) : Prop :=
   (∀ s, Contiguous 0 (subs.json s)) ∧ (∀ s, Contiguous 0 (subs.diff s))
@@ -46,11 +55,15 @@ theorem C20_progress (subs : Subs) (hs : ∀ s, ∀ t ∈ subs.json s ++ subs.di
 
 /-- a section of a DiffX file as text: its tag (one of the ten header tags), the
 option string (without the leading space) if any, and its content -/
+abbrev Sec := Lexer.Sec
+/- (the structure is declared in Lemmas/Lexer.lean because the lemmas are stated with it)
 structure Sec where
   head : Head
   tag : Str
   attrs : Option Str
   content : Str
+-/
+example (s : Sec) : s = { head := s.head, tag := s.tag, attrs := s.attrs, content := s.content } := rfl
 
 /-- the text of a section: `tag[ attrs]\n` followed by the content -/
 def Sec.text (s : Sec) : Str :=
@@ -85,20 +98,40 @@ theorem C20_headers (subs : Subs) (hl : SubsLossless subs) (hq : SubsQuiet subs)
   lex_headers subs hl hq secs hb hd
 
 /-! ### tests -/
-def opaque : Subs :=
+def opaqueSubs : Subs :=
   { json := fun s => if s.isEmpty then [] else [⟨0, .other, s⟩]
     diff := fun s => if s.isEmpty then [] else [⟨0, .other, s⟩] }
 
-example : SubsLossless opaque := by
-  constructor <;> intro s <;> simp [opaque, concatVals] <;> split <;> simp_all
+example : SubsLossless opaqueSubs := by
+  constructor <;> intro s <;> simp [opaqueSubs, concatVals] <;> split <;> simp_all
 
-example : (lex opaque t!"#diffx: version=1.0\n#.change:\n#..file:\n#...meta: length=3\n{}\n#...diff: length=9\ndelta 5\n-a\n").map
+example : (lex opaqueSubs t!"#diffx: version=1.0\n#.change:\n#..file:\n#...meta: length=3\n{}\n#...diff: length=9\ndelta 5\n-a\n").map
       (fun t => (t.pos, t.kind)) =
     [(0, .tag), (7, .other), (8, .attr), (19, .other), (20, .tag), (29, .other), (30, .tag), (38, .other),
      (39, .tag), (48, .other), (49, .attr), (57, .other), (58, .other), (61, .tag), (70, .other), (71, .attr),
      (79, .other), (80, .keyword), (85, .other), (86, .number), (87, .other), (88, .other)] := by decide
 
 /-- a text without any newline is all `Error` tokens, still lossless -/
-example : (lex opaque t!"#.x").map (·.kind) = [.error, .error, .error] := by decide
+example : (lex opaqueSubs t!"#.x").map (·.kind) = [.error, .error, .error] := by decide
+
+/-- the hypotheses of `C20_headers` are satisfiable: a four-section document
+(content with a lone `#`, which is not a `#.` sequence) -/
+def demo : List Sec :=
+  [⟨.container, t!"#diffx:", some t!"version=1.0", []⟩, ⟨.container, t!"#.change:", none, []⟩,
+   ⟨.metadata, t!"#..meta:", some t!"length=3", t!"{}#\n"⟩, ⟨.diff, t!"#...diff:", none, t!"#"⟩]
+
+example : (∀ s ∈ demo, s.Benign) ∧ Document demo := by
+  refine ⟨?_, rfl, by simp⟩
+  have nodot : ∀ (c : Str), c.length ≤ 4 → (∀ i, i < 4 → ¬ (t!"#." <+: c.drop i)) →
+      ∀ i, ¬ (t!"#." <+: c.drop i) := by
+    intro c hc h i
+    by_cases hi : i < 4
+    · exact h i hi
+    · rw [List.drop_eq_nil_of_le (by omega)]; simp
+  simp only [demo, List.mem_cons, List.not_mem_nil, or_false, forall_eq_or_imp, forall_eq]
+  refine ⟨⟨by decide, by decide, by simp, by simp⟩, ⟨by decide, by simp, by simp, by simp⟩,
+    ⟨by decide, by decide, by simp, ?_⟩, ⟨by decide, by simp, by simp, ?_⟩⟩
+  · exact fun _ => ⟨by simp, nodot _ (by simp) (by decide)⟩
+  · exact fun _ => ⟨by simp, nodot _ (by simp) (by decide)⟩
 
 end Diffx.C20
